@@ -11,6 +11,7 @@
 #include <soundswallower/fsg_history.h>
 #include <soundswallower/fsg_model.h>
 #include <soundswallower/logmath.h>
+#include "../common/histadd.h"
 #include "../common/vtrace.h"
 
 #define NCTX 4
@@ -152,7 +153,7 @@ main(int argc, char *argv[])
                 if ((c & (1 << (wid - 1))) && cmap[wid] >= 0)
                     rc.bv[cmap[wid] >> 5] |= 1u << (cmap[wid] & 31);
             bucket_of(a, &s, &lc);
-            fsg_history_entry_add(h, links[s], frame, b, e, lc, rc);
+            VT_HIST_ADD(h, links[s], frame, b, e, lc, rc);
             fprintf(vt_out, "{\"e\":\"Add\",\"b\":%d,\"score\":%d,\"mask\":%d,\"pred\":%d,\"frame\":%d,", a, b, c, e, frame);
             emit_lists();
             fprintf(vt_out, ",");
